@@ -46,6 +46,11 @@ def _tx_key(eng, x, st):
 
 # level / notes per property; functions and lemmas come from the props tags on the contracts
 PROPS = {
+    'C04': dict(level='proof',
+                explanation="whole-view post-condition of CoinState.add_block_no_validation proved from source; lemma "
+                            "C04.fork-choice: the representation invariant (ids, tree, head = first-seen of greatest height, "
+                            "tips = childless stored blocks, by-height index = ancestors) holds for the empty state and "
+                            "is preserved by every parent-before-child arrival (ghost arrival index and child witness)"),
     'C01': dict(level='proof',
                 explanation="post-conditions of the validation functions (by-itself, in-coinstate, duplicate checks, "
                             "signature check, add_block) proved from their source for all inputs; lemma C01.accepted-block "
